@@ -197,7 +197,7 @@ def _safety(name):
 
 
 _ALL_UNITS = ["take_range", "sort_take", "split_order", "window_frame", "dialect_select", "ident_quote", "ids_names", "toposort", "rq_tables",
-              "select_shape", "span_units", "sql_prec", "prql_prec", "literals", "set_ops", "desugar", "resolve_guards"]
+              "select_shape", "span_units", "sql_prec", "prql_prec", "literals", "set_ops", "desugar", "resolve_guards", "lex_strings"]
 prop("C12", _ALL_UNITS, select={u: _safety for u in _ALL_UNITS},
      not_covered="every function that is not under contract (~150 unwrap/expect sites, todo!() in type_intersection, panic!(cannot find cid) in lookup_cid), "
                  "recursion depth, chumsky, time bounds")
@@ -209,14 +209,18 @@ claim("C12",
       "Preconditions (validated take bounds, operator arities as the resolver builds them, id counters below usize::MAX) are assumptions about call sites "
       "that are not themselves verified; RQ/PL supplied as JSON can violate them.")
 
-prop("C08", ["literals"],
-     not_covered="lexer escape decoding (chumsky), float text round trip, date/time/interval literals, f-string lowering, relation literal rows, "
+prop("C08", ["literals", "lex_strings"],
+     not_covered="float text round trip, date/time/interval literals, f-string lowering, relation literal rows, "
                  "dialects whose string literals treat backslash as an escape (finding F9: not under contract)")
 claim("C08",
       "PARTIAL. Proved on the real code: translate_literal emits a string / raw string as SingleQuotedString with exactly the same characters for every "
       "dialect and every content (TL1s, TL1r), integers / floats as the std rendering of the same value, booleans and null exactly (TL1i, TL1f, TL1b, "
       "TL1n); the lexer's number conversion yields the i64 the digits spell when they fit, otherwise the f64 they spell, and the 0 fallback only for "
-      "text that is neither (LN1-3). NOT proved: escape decoding in the lexer, float formatting round trip, backslash-escaping dialects.",
+      "text that is neither (LN1-3); the string lexer (parse_escape_sequence and the body of multi_quoted_string, verbatim): \\n \\r \\t \\b \\f \\\\ \\/ and the "
+      "escaped quote denote the documented character and consume one character (ES2a), \\xHH and \\u{H..} with 1-6 digits denote the character with that code "
+      "and consume exactly the escape (ES2b-c), an unescaped string opened by n quotes is the text up to the FIRST run of n quotes, verbatim (MQ2, any n, any "
+      "length), every loop terminates and only moves forward (ES1, ES4, MQ1, MQL). NOT proved: float formatting round trip, backslash-escaping dialects, "
+      "content of escaped strings beyond one escape.",
       "sqlparser's Display (quote doubling) is trusted; str::parse and format! are uninterpreted; date/time/interval arms are not under contract.")
 
 prop("C07", ["set_ops", "sql_prec"], select={"sql_prec": lambda n: n.split(".", 1)[1].startswith("NP4.std_neg") or n.endswith(".safety")},
